@@ -31,6 +31,10 @@ impl Args {
     pub fn num(&self, k: &str, default: u64) -> u64 {
         self.kv.get(k).and_then(|s| s.parse().ok()).unwrap_or(default)
     }
+    /// signatures of recorded known findings (passed by the driver) — engines keep exploring past them
+    pub fn known(&self) -> Vec<String> {
+        self.get("known").map(|s| s.split(',').filter(|x| !x.is_empty()).map(|x| x.to_string()).collect()).unwrap_or_default()
+    }
     pub fn thorough(&self) -> bool {
         self.tier == "thorough"
     }
